@@ -18,6 +18,8 @@
 
 extern "C" int LLVMFuzzerRunDriver(int *argc, char ***argv, int (*cb)(const uint8_t *, size_t));
 int verif_rc_main();  // drv_rc.cc
+// optional: enumeration of a finite sub-space.  Returns the size of the space; when tape != nullptr fills the i-th tape.
+size_t verif_enum(uint64_t i, std::vector<uint8_t> *tape) __attribute__((weak));
 
 namespace verif {
 
@@ -219,6 +221,28 @@ int main(int argc, char **argv) {
     char **av = argv + 1;
     av[0] = argv[0];
     return LLVMFuzzerRunDriver(&ac, &av, fuzz_cb);
+  }
+  if (mode == "enum") {
+    if (!verif_enum) { fprintf(stderr, "property has no enumeration tier\n"); return 2; }
+    uint64_t total = verif_enum(0, nullptr);
+    uint64_t from = argc > 2 ? strtoull(argv[2], nullptr, 10) : 0, to = argc > 3 ? strtoull(argv[3], nullptr, 10) : total;
+    if (to > total) to = total;
+    for (uint64_t i = from; i < to; i++) {
+      std::vector<uint8_t> t;
+      verif_enum(i, &t);
+      Info info;
+      int v = run_one(t.data(), t.size(), true, &info);
+      if (v == VIOLATION) {
+        save_violation("violation-enum", t.data(), t.size(), info.message, info.render);
+        fprintf(stderr, "VERIF-VIOLATION: %s\n", info.message.c_str());
+        dump_stats();
+        return 10;
+      }
+    }
+    g.counters["enumerated"] += to > from ? to - from : 0;
+    g.counters["enumeration_space"] = total;
+    dump_stats();
+    return 0;
   }
   if (mode == "replay" || mode == "show") {
     int worst = 0;
